@@ -74,7 +74,8 @@ impl PreProcessContext {
 
         path = self.replace_placeholders(&path, workspace_str);
 
-        if path.starts_with('~') {
+        // `~` alone or `~/...` is the home directory; `~name` is an ordinary (relative) path
+        if path == "~" || path.starts_with("~/") || path.starts_with("~\\") {
             let home_dir = match dirs::home_dir() {
                 Some(path) => path,
                 None => {
@@ -82,7 +83,8 @@ impl PreProcessContext {
                     return path;
                 }
             };
-            path = home_dir.join(&path[2..]).to_string_lossy().to_string();
+            let rest = path[1..].trim_start_matches(['/', '\\']);
+            path = home_dir.join(rest).to_string_lossy().to_string();
         } else if path.starts_with("./") {
             path = self
                 .workspace
